@@ -393,3 +393,31 @@ def is_cleanup_region(body, block):
         if bb["term"]["k"] not in ("goto", "switch", "drop", "return", "unreachable"):
             return False
     return True
+
+
+def effect_calls(ev, env, depth=0, max_depth=4):
+    """all external call sites executed (flow-insensitively) by env.body including inlined
+    local callees: yields (cid, head, [arg terms], terminator, body, block)"""
+    body = env.body
+    for bi, t in body.calls():
+        if "fn" not in t:
+            continue
+        fn = t["fn"]
+        key = fn.get("resolved_key") or fn.get("key")
+        args = [ev.operand(env, a, (bi, None)) for a in t["args"]]
+        if key and key in ev.facts.bodies and key not in ev.opaque and depth < max_depth:
+            cb = ev.facts.bodies[key]
+            sub = Env(cb, {i + 1: x for i, x in enumerate(args)}, depth + 1)
+            for r in effect_calls(ev, sub, depth + 1, max_depth):
+                yield r
+        else:
+            yield (callee_id(fn), fn.get("self_adt"), args, t, body, bi)
+
+
+def closure_terms_in(ev, env):
+    """closure aggregates built in env.body: {closure key: term}"""
+    out = {}
+    for bi, si, s in env.body.stmts():
+        if s["k"] == "assign" and s["rv"]["k"] == "agg" and s["rv"]["agg"] == "closure":
+            out[s["rv"]["closure"]] = ev.rvalue(env, s["rv"], (bi, si))
+    return out
